@@ -10,6 +10,7 @@ pub mod par;
 pub mod ieee;
 pub mod exact;
 pub mod lit;
+pub mod hp;
 
 pub use lay::{mask, Lay, Layout};
 pub use out::Out;
